@@ -88,6 +88,8 @@ def check(ctx):
     ctx.rule("C11.A5", "mode discipline: helper rejects modes without 'w'; call sites pass constant modes from {w, wb}")
     ctx.rule("C11.A6", "the helpers touch the target path only through the rename")
     ctx.rule("C11.A8", "on the normal path of the with-body the rename happens on every path (write success <=> target replaced, modified time advanced)")
+    ctx.rule("C11.A9", "staging files are private to the publishing helpers: nothing else in the package names a staging path (the suffix constant or its text) - a staging file left behind by a killed process is not looked at, waited for or treated as a lock by anyone")
+    ctx.run(rule_staging_names_private, "C11.A9")
     ctx.rule("C11.A7", "a failing rename (I/O error on rename) is covered by the same remove-and-re-raise cleanup")
     ctx.trust("os.replace(src, dst) is atomic when both are on one file system; open(..., 'w') truncates")
     ctx.trust("try/finally and with run their exit code on every exit; a bare raise re-raises the handled exception")
@@ -524,12 +526,26 @@ def _evaluate_staging_expr(m, f, e, path_param):
     directory (the rename is atomic only within a file system), and must never produce a name that is itself one of the targets."""
     import os as _os
     from ..absval import AbsRaise, Env, Interp
+    import pathlib as _pl
+    verdicts = []
+    for as_path in (False, True):
+        v_ = _evaluate_staging_probes(m, f, e, path_param, as_path)
+        if v_[0] != "ok":
+            return v_
+        verdicts.append(v_[1])
+    return "ok", verdicts[0] + " (targets given as str and as pathlib.Path)"
+
+
+def _evaluate_staging_probes(m, f, e, path_param, as_path):
+    import os as _os
+    import pathlib as _pl
+    from ..absval import AbsRaise, Env, Interp
     out = {}
     for t in _PROBE_TARGETS:
         interp = Interp(m, ext={"os.path.splitext": _os.path.splitext, "os.path.basename": _os.path.basename, "os.path.dirname": _os.path.dirname,
                                 "os.path.join": _os.path.join, "os.fspath": lambda x: x, "os.fsdecode": lambda x: x, "os.path.split": _os.path.split})
         env = Env(f)
-        env.vars[path_param] = t
+        env.vars[path_param] = _pl.PosixPath(t) if as_path else t
         # module-level string constants the expression refers to resolve through the module scope
         try:
             v = interp.eval(e, env)
@@ -537,6 +553,8 @@ def _evaluate_staging_expr(m, f, e, path_param):
             return "unknown", ""
         except AnalysisError:
             return "unknown", ""
+        if isinstance(v, _pl.PurePath):
+            v = str(v)
         if not isinstance(v, str):
             return "unknown", ""
         out[t] = v
@@ -606,3 +624,60 @@ def check_path_uses(ctx, m, f, path_param, helpers):
             why = f"unrecognised use of the target path in `{norm(stmt_of(mod, n))}`"
         ctx.ob("C11.A6", f"{f.short}/{path_param}", ok, loc(f, n),
                why if ok else f"{why}: the target must change only through the rename", norm(stmt_of(mod, n)))
+
+
+
+# ------------------------------------------------------------------------------------------------ C11.A9
+def rule_staging_names_private(ctx, rid):
+    m = ctx.model
+    publish, stagefile, filestore, stores = roles(m)
+    # the suffix: string constants of the publishing helpers' module that end a staging-name expression, found as the text(s) the
+    # helpers append; and module-level names bound to such a text
+    texts, names = set(), set()
+    for f in publish:
+        for n in f.own_nodes():
+            if isinstance(n, ast.JoinedStr):
+                for v in n.values[1:]:
+                    if isinstance(v, ast.Constant) and isinstance(v.value, str) and v.value.startswith("."):
+                        texts.add(v.value)
+                    if isinstance(v, ast.FormattedValue) and isinstance(v.value, ast.Name):
+                        names.add(v.value.id)
+            if isinstance(n, ast.BinOp) and isinstance(n.op, ast.Add) and isinstance(n.right, ast.Constant) and isinstance(n.right.value, str) and n.right.value.startswith("."):
+                texts.add(n.right.value)
+        for g in m.reachable([f], kinds=("call",)):
+            if g.module is f.module and g is not f:
+                for n in g.own_nodes():
+                    if isinstance(n, ast.JoinedStr):
+                        for v in n.values[1:]:
+                            if isinstance(v, ast.Constant) and isinstance(v.value, str) and v.value.startswith("."):
+                                texts.add(v.value)
+                            if isinstance(v, ast.FormattedValue) and isinstance(v.value, ast.Name):
+                                names.add(v.value.id)
+    home = {f.module for f in publish}
+    for mod in home:
+        for st in mod.tree.body:
+            if isinstance(st, ast.Assign) and isinstance(st.value, ast.Constant) and isinstance(st.value.value, str) and st.value.value.startswith(".") \
+                    and (st.value.value in texts or any(isinstance(t, ast.Name) and t.id in names for t in st.targets)):
+                texts.add(st.value.value)
+                names |= {t.id for t in st.targets if isinstance(t, ast.Name)}
+    names = {n_ for n_ in names if any(any(isinstance(t, ast.Name) and t.id == n_ for t in st.targets) for mod in home for st in mod.tree.body if isinstance(st, ast.Assign))}
+    if not texts:
+        raise AnalysisError("role STAGING-SUFFIX: the text the publishing helper appends to the target name was not found")
+    allowed = set(publish) | set(stagefile)
+    for f in list(allowed):
+        allowed |= {g for g in m.reachable([f], kinds=("call",)) if g.module in home}
+    n = 0
+    for f in m.funcs.values():
+        if f in allowed or f.module.name.startswith("uberjob._testing"):
+            continue
+        for node in f.own_nodes():
+            hit = (isinstance(node, ast.Constant) and isinstance(node.value, str) and any(t_ in node.value for t_ in texts)) or \
+                (isinstance(node, ast.Name) and node.id in names and isinstance(node.ctx, ast.Load)) or \
+                (isinstance(node, ast.Attribute) and node.attr in names)
+            if hit:
+                n += 1
+                ctx.ob(rid, f"{f.short}/names-a-staging-file", False, loc(f, node),
+                       f"`{norm(stmt_of(f.module, node))[:70]}` refers to a store's staging file outside the publishing helpers: a staging file left "
+                       f"by a killed process (nobody removes it) then influences later runs", norm(node)[:60])
+    if not n:
+        ctx.ob(rid, "STAGING/private", True, loc(publish[0]), f"only the publishing helpers name a staging file (suffix {sorted(texts)})")
